@@ -1692,6 +1692,11 @@ func runCompress(cfg *Config) *Result {
 			res.SetupError = "replay file: " + err.Error()
 			return res
 		}
+		if strings.HasPrefix(rp.Case, "slowtail ") {
+			os.Unsetenv("MOBY_DISABLE_PIGZ")
+			czStartSlowTail(cfg.Seed).collect(res)
+			return res
+		}
 		if strings.HasPrefix(rp.Case, "writers ") {
 			czWriterProbe(res, cfg.Seed)
 			return res
@@ -1717,8 +1722,13 @@ func runCompress(cfg *Config) *Result {
 	}
 	rng := newRng(cfg.Seed)
 	cases = czGenerate(cfg, rng)
+	// the external gzip path is the default before the passes start switching it
+	os.Unsetenv("MOBY_DISABLE_PIGZ")
+	slow := czStartSlowTail(cfg.Seed)
+	time.Sleep(300 * time.Millisecond) // let both streams be opened (the gzip path is chosen at open time)
 	verdicts := czRunAll(e, cases)
 	czWriterProbe(res, cfg.Seed)
+	slow.collect(res)
 	for i, c := range cases {
 		if verdicts[i] == nil {
 			continue
